@@ -116,14 +116,22 @@ class Signal(np.lib.mixins.NDArrayOperatorsMixin):
 
         out_arr = tuple((i.data if isinstance(i, Signal) else i) for i in out)
 
-        if any(isinstance(o, dask.array.Array) for o in out_arr) and "where" not in kwargs:
+        is_dask = any(isinstance(a, dask.array.Array) for a in in_arr + out_arr)
+        if is_dask:
+            # Keywords of NumPy ufuncs that Dask's do not take: the casting rule
+            # is applied below, the others are layout hints.
+            casting = kwargs.pop("casting", "same_kind")
+            kwargs.pop("order", None)
+            kwargs.pop("subok", None)
+
+        if any(isinstance(o, dask.array.Array) for o in out_arr):
             # Dask would rebind an output array to the dtype of the result;
             # like NumPy, cast into the dtype of the given output instead.
+            where = kwargs.pop("where", True)
             results = ufunc(*in_arr, **kwargs)
             if results is NotImplemented:
                 return NotImplemented
             pairs = zip((results,) if ufunc.nout == 1 else results, out_arr)
-            casting = kwargs.get("casting", "same_kind")
             cast = []
             for r, o in pairs:
                 if o is not None and not np.can_cast(r.dtype, o.dtype, casting):
@@ -132,9 +140,13 @@ class Signal(np.lib.mixins.NDArrayOperatorsMixin):
                         f"to {o.dtype!r} with casting rule '{casting}'"
                     )
                 if isinstance(o, dask.array.Array):
-                    r = dask.array.core.handle_out(o, dask.array.asarray(r).astype(o.dtype))
+                    r = dask.array.asarray(r).astype(o.dtype)
+                    if where is not True:
+                        # Samples that are masked out keep their value.
+                        r = dask.array.where(where, r, o)
+                    r = dask.array.core.handle_out(o, r)
                 elif o is not None:
-                    o[...] = r
+                    np.copyto(o, r, casting=casting, where=where)
                     r = o
                 cast.append(r)
             results = cast[0] if ufunc.nout == 1 else tuple(cast)
